@@ -602,6 +602,17 @@ def drv_repeat(tier, rng):
             mp = req['methodParameters']
             if mth in ('majorityHeuristic', 'aspectEliminationHeuristic', 'satisfactionHeuristic') and rng.random() < 0.5:
                 mp['randomAlternativesOrdering'] = True
+            if rng.random() < 0.35:     # seeds left out (they default to 0): still a function of the request
+                def strip(v):
+                    if isinstance(v, dict):
+                        return {k: strip(x) for k, x in v.items() if k not in INT_KEYS or k == 'queryNumber'}
+                    if isinstance(v, list):
+                        return [strip(x) for x in v]
+                    return v
+                req = strip(req)
+                for b in req['biases']:
+                    if rng.random() < 0.5:
+                        b['applyProbability'] = rng.choice([pipeline.PU // 4, pipeline.PU // 2, 3 * pipeline.PU // 4])
             rid += 1
             groups.append([{'fam': 'repeat', 'unit': pipeline.PU, 'rid': 'r%d' % rid, 'req': req, 'repeat': 3 if tier == 'quick' else 10}])
     # near-ties: values closer than the tolerances the methods use (1e-5 Choquet, 1e-6 majority) but not identical -
